@@ -10,6 +10,8 @@ import Verif.Properties.C01Move
 #print axioms C01.nameWith_preserves_meaning
 #print axioms C01.retarget_preserves_meaning
 #print axioms C01.inline_preserves_meaning
+#print axioms C01.pointer_retarget_step_preserves
+#print axioms C01.pointer_expand_step_preserves
 #print axioms C01.rewriteSchemaToRef_is_setAt
 #print axioms C01.tiny_targetsOK
 #print axioms C01.tiny_stable
